@@ -32,6 +32,32 @@ CHECKS = {
          "tool0 built from the tree regenerates internal/gontainer/gontainer.go (must equal the checked-in file modulo the version line), a tool rebuilt with the regenerated file must reproduce it (2 generations quick, 3 thorough), the in-process command must agree with the binary, and the --stub variant must build with the tag. The quantified space is this one chain; it is walked completely.",
          "trusted: go build of scratch copies of the tree",
          "3/C19", "CFG-X"),
+
+ "C01": ("exploration",
+         "bounded-exhaustive enumeration of configurations (<=3 / <=4 factor departures, full literal x position and pattern-shape x position products) with go/format + go/types on every accepted output and real compilation of a covering subset",
+         "Every configuration departing from a base service in <=3 (quick) / <=4 (thorough) of 13 factors, every parameter literal kind (incl. non-finite and huge floats) in every position, every pattern shape in every position is run through the real command; each accepted output must be gofmt-stable, type-check against export data of the pinned runtime and the fixture universe, and satisfy (statically) the interface assertion its init() evaluates; all single (thorough: pair) departures are really compiled, linked and started, normal and with -tags gontainerstub.",
+         "trusted: go/types + gc export data, the fixture universe (every referenced symbol exists; declared types are consistent with declared values)",
+         "3/C01", "CFG-X"),
+ "C02": ("exploration",
+         "bounded-exhaustive enumeration of (argument position x argument form), call words and creation methods, each executed in a probe binary against a reference interpreter",
+         "Every (position, form) pair singly (thorough: every pair of pairs, ~55k configurations), all call/wither words of length <=3 on 5 receiver kinds, 24 creation methods x 4 scopes and 10 error paths are generated, compiled and linked with the real runtime; six operations per container are compared (canonical object-graph descriptions incl. identity structure and dynamic types) with a sequential reference model of the documentation.",
+         "trusted: fixture universe (self-describing objects), reference model (oracle), the pinned runtime's reflection helpers",
+         "3/C02", "CFG-X"),
+ "C13": ("exploration",
+         "complete truth-table enumeration decided on the go/types method set, plus collision rows and an executed subset",
+         "The full product getter x 8 type forms x must_getter x default_must_getter x 8 meta-name settings x 2 creation methods (2160 rows) is run through the real command; the exported method set of the generated container type must equal the runtime container's exported methods plus exactly the documented getters with exactly the documented signatures; 84 collision rows (equal getters, every reserved name and Must/InContext combination) must be rejected; 24 typed configurations are executed (getter, InContext twin, Must twins incl. panics).",
+         "trusted: go/types view of the pinned runtime; unexported helper methods are not API",
+         "3/C13", "CFG-X"),
+ "C14": ("exploration",
+         "bounded-exhaustive enumeration of alias tables x written references x positions, resolved with go/types",
+         "All alias tables of <=2 (quick) / <=3 (thorough) of 14 aliases (prefix-related aliases, aliases named like the template's own imports, a quoted target) x every written import form that denotes an existing fixture package x 6 positions: the selector carrying the position's own symbol must resolve to the package an independent denotation function computes; imports unique, local names distinct, file type-checks.",
+         "trusted: own denotation function; fixture packages export identical symbols",
+         "3/C14", "CFG-X"),
+ "C17": ("exploration",
+         "pairwise enumeration (normal, --stub) over the C01 factor space with go/types API diff, types-only universe, and an executed stub probe",
+         "For every vector with <=2 (quick) / <=3 (thorough) factor departures, the getter truth table and 10 rejected configurations, both modes are run: same verdict and diagnostics, build constraint first, identical exported view, the stub type-checks against a universe that declares types only and references nothing but type names; all single departures are compiled with the tag and their constructor and getters called (must panic 'stub'); without the tag the package is excluded.",
+         "trusted: go/types; the types-only twin universe",
+         "3/C17", "CFG-X"),
 }
 
 NOT_YET = {
